@@ -49,6 +49,8 @@ theorem nonneg_setBal {n} {w : World n} (h : NonNeg w) (a : Fin n) {v : Int} (hv
   · exact hv
   · exact h x
 
+theorem total_setGraph {n} (w : World n) (a : Fin n) (g : Option Graph) : total (w.setGraph a g) = total w := rfl
+
 theorem nonneg_setStore {n} {w : World n} (h : NonNeg w) (a : Fin n) (k v : Nat) :
     NonNeg (w.setStore a k v) := h
 
@@ -123,6 +125,15 @@ theorem runOps_inv {n} (cfg : Cfg n)
       simp only [runOps]
       have := ih (w.setStore self k v) logs btp used
       exact ⟨this.1, fun h => this.2 h⟩
+    | setg nh g =>
+      simp only [runOps]
+      have := ih (if cfg.hasContract self = true then w.setGraph self (graphChanged nh g) else w) logs btp used
+      have e : total (if cfg.hasContract self = true then w.setGraph self (graphChanged nh g) else w) = total w := by
+        split <;> rfl
+      refine ⟨this.1.trans e, fun h => this.2 ?_⟩
+      split
+      · exact h
+      · exact h
     | emit t => simp only [runOps]; exact ih _ _ _ _
     | btp x => simp only [runOps]; exact ih _ _ _ _
     | burn s =>
@@ -184,7 +195,7 @@ theorem good_scriptFrame {n} (cfg : Cfg n) (fuel : Nat) :
         apply good_close
         intro _
         have := runOps_inv cfg (fun f t v' b w l => scriptFrame cfg fuel true f t v' b w l)
-          (fun f t v b w l => ih true f t v b w l) self limit ops w1 [] 0 used
+          (fun f t v b w l => ih true f t v b w l) self limit ops w1 (if v > 0 then xferLogs cfg f v else []) 0 used
         exact ⟨this.1.trans (hw1 hst0).1, fun h => this.2 ((hw1 hst0).2 h)⟩
 
 theorem good_topFrame {n} (cfg : Cfg n) (fuel : Nat) (tx : Tx n) (w0 : World n) (limit : Nat) :
@@ -341,7 +352,7 @@ theorem doExecute_transfer_ok {n} (cfg : Cfg n) (fuel : Nat) (wInit w : World n)
   simp only at h ⊢
   generalize (if cfg.legacyBal = true then wInit.bal tx.frm else w.bal tx.frm) = cbal at h ⊢
   have htop : ∀ l, topFrame cfg fuel tx w l = closeFrame w (doTransfer cfg w tx.frm tx.to tx.value).1
-      (doTransfer cfg w tx.frm tx.to tx.value).2 [] 0 0 := by
+      (doTransfer cfg w tx.frm tx.to tx.value).2 (xferLogs cfg tx.frm tx.value) 0 0 := by
     intro l
     unfold topFrame
     split
